@@ -32,10 +32,25 @@ CLAIM = {
 }
 
 THEOREMS = [
-    "Okane.Price.C09_identity", "Okane.Price.C09_asof", "Okane.Price.C09_asof_filter", "Okane.Price.C09_reciprocal",
-    "Okane.Price.C09_priority", "Okane.Price.C09_sound", "Okane.Price.C09_optimal", "Okane.Price.C09_fail_iff",
-    "Okane.Price.C09_direct", "Okane.Price.C09_two_hop", "Okane.Price.C09_cache_transparent",
-    "Okane.Price.C09_insert_no_panic", "Okane.Price.C09_order_independent_distance",
+    "Okane.Price.C09_identity",
+    "Okane.Price.C09_build_sorted",
+    "Okane.Price.C09_asof",
+    "Okane.Price.C09_asof_filter",
+    "Okane.Price.C09_step_is_asof",
+    "Okane.Price.C09_reciprocal",
+    "Okane.Price.C09_priority",
+    "Okane.Price.C09_priority_built",
+    "Okane.Price.C09_insert_no_panic",
+    "Okane.Price.C09_sound",
+    "Okane.Price.C09_optimal",
+    "Okane.Price.C09_best",
+    "Okane.Price.C09_fail_iff",
+    "Okane.Price.C09_direct",
+    "Okane.Price.C09_two_hop",
+    "Okane.Price.C09_order_independent_distance",
+    "Okane.Price.C09_cache_transparent",
+    "Okane.Price.C09_terminates_partial",
+    "Okane.Price.C09_tie_witness",
 ]
 
 # ------------------------------------------------------------------------------------------------
@@ -320,7 +335,7 @@ def check_case(chk, cid, comms, evs, fs, tol=None):
     """evaluates the property's statement on what Ledger::eval returned. returns (violation message or None, stats)"""
     recs = edges_from_events(evs)
     q = sx_parse(fs.get("q", "()"))
-    stats = {"q": 0, "nontrivial": 0}
+    stats = {"q": 0, "nontrivial": 0, "keys": []}
     cache = {}
     for rec in q:
         D, A, B, res = un_date(rec[0]), dec(rec[1]), dec(rec[2]), rec[3]
@@ -343,6 +358,7 @@ def check_case(chk, cid, comms, evs, fs, tol=None):
         if nchains > 1:
             chk.count("several_chains")
             stats["nontrivial"] += 1
+            stats["keys"].append((str(D), A, B))
         if len(rates) > 1:
             chk.count("tie_between_best_chains_or_same_day_records")
         if any(e.date == D for e in evs):
@@ -439,8 +455,8 @@ def run(chk):
     ]
     if not standard_prologue(chk, THEOREMS):
         return
-    n_random = 260 if chk.tier == "quick" else 6000
-    n_inexact = 25 if chk.tier == "quick" else 400
+    n_random = 1200 if chk.tier == "quick" else 30000
+    n_inexact = 60 if chk.tier == "quick" else 1500
     cases = []   # (id, comms, evs, tol)
     for cid, comms, evs in fixed_cases():
         cases.append((cid, mentioned(evs), evs, None))
@@ -484,7 +500,9 @@ def run(chk):
         msg, stats = check_case(chk, cid, comms, evs, fs, tol)
         nq += stats["q"]
         chk.case(line, nontrivial=stats["nontrivial"] > 0)
-        chk.evaluations += stats["q"] - 1
+        for key in stats["keys"]:
+            chk.case((line, key), nontrivial=True)       # one evaluation per query; non-trivial ones are fingerprinted
+        chk.evaluations += max(0, stats["q"] - 1 - len(stats["keys"]))
         if msg:
             chk.oracle_failures += 1
             chk.violation("conversion does not use the right price: " + msg, dict(replay, observed=fs.get("q", "")[:4000]))
